@@ -90,6 +90,10 @@ pub fn judge(opts: &Opts, r: &Rendered, raw: &str, used_backspace: bool, st: &mu
         if allowed_emoji.contains(c) {
             continue;
         }
+        if used_backspace && !c.chars().any(crate::model::is_bengali_block) && !c.is_ascii() {
+            // an emoji whose source is the raw key text; after a backspace the raw key text is not specified
+            continue;
+        }
         if i == cands.len() - 1 && opts.english && !opts.ansi && (c == raw || used_backspace) && !c.chars().any(crate::model::is_bengali_block) {
             continue; // the raw key item (after a backspace its exact text is not specified)
         }
@@ -125,10 +129,12 @@ pub struct Case {
     pub trail: String,
     /// after which character positions a delete-and-retype happens
     pub retype: Vec<u8>,
+    /// (position, n): after the key at that position, n plain backspaces; typing then simply goes on
+    pub burst: Vec<(u8, u8)>,
 }
 
 fn case_json(c: &Case) -> Value {
-    json!({"optidx": c.optidx, "lead": c.lead, "word": c.word, "trail": c.trail, "retype": c.retype})
+    json!({"optidx": c.optidx, "lead": c.lead, "word": c.word, "trail": c.trail, "retype": c.retype, "burst": c.burst})
 }
 
 /// value string -> key for punctuation / Bengali characters
@@ -179,6 +185,23 @@ fn check(c: &Case, lo: &mut Local, st: &mut Stats) -> Result<(), Failure> {
             judge(&ctx.opts, &r2, &raw, used_bs, st, &case)?;
             st.label("with-backspace");
         }
+        for (_, n) in c.burst.iter().filter(|(pos, _)| *pos as usize == i) {
+            for _ in 0..*n {
+                let b = ctx.backspace(false).map_err(pf)?;
+                raw.pop();
+                used_bs = true;
+                if b.is_empty() {
+                    if !ctx.ongoing() {
+                        // the word is gone: the next key starts a new one ("no backspace was used" holds again)
+                        raw.clear();
+                        used_bs = false;
+                    }
+                    break;
+                }
+                judge(&ctx.opts, &b, &raw, used_bs, st, &case)?;
+            }
+            st.label("with-backspace-burst");
+        }
     }
     ctx.finish().map_err(pf)?;
     Ok(())
@@ -199,8 +222,9 @@ pub fn strategy() -> impl Strategy<Value = Case> {
         prop_oneof![4 => proptest::sample::select(words), 1 => proptest::sample::select(emoji_names)],
         wrap(),
         proptest::collection::vec(0u8..12, 0..2),
+        proptest::collection::vec((0u8..10, 1u8..6), 0..2),
     )
-        .prop_map(|(optidx, lead, word, trail, retype)| Case { optidx, lead, word, trail, retype })
+        .prop_map(|(optidx, lead, word, trail, retype, burst)| Case { optidx, lead, word, trail, retype, burst })
 }
 
 pub fn run(run: &Run) {
@@ -214,7 +238,7 @@ pub fn run(run: &Run) {
         |_| mk_local(),
         |&wi, st, lo| {
             let w = &all[wi];
-            let c = Case { optidx: hash_of(w) as usize % N_OPT, lead: String::new(), word: w.clone(), trail: String::new(), retype: vec![] };
+            let c = Case { optidx: hash_of(w) as usize % N_OPT, lead: String::new(), word: w.clone(), trail: String::new(), retype: vec![], burst: vec![] };
             checked(&c, lo, st)
         },
     );
@@ -228,7 +252,7 @@ pub fn run(run: &Run) {
         |&wi, st, lo| {
             for optidx in 0..N_OPT {
                 st.evals(1);
-                let c = Case { optidx, lead: String::new(), word: all[wi].clone(), trail: String::new(), retype: vec![] };
+                let c = Case { optidx, lead: String::new(), word: all[wi].clone(), trail: String::new(), retype: vec![], burst: vec![] };
                 checked(&c, lo, st)?;
             }
             Ok(())
@@ -244,15 +268,35 @@ pub fn run(run: &Run) {
         |&wi, st, lo| {
             for optidx in 0..N_OPT {
                 st.evals(1);
-                let c = Case { optidx, lead: String::new(), word: all[wi].clone(), trail: String::new(), retype: vec![] };
+                let c = Case { optidx, lead: String::new(), word: all[wi].clone(), trail: String::new(), retype: vec![], burst: vec![] };
                 checked(&c, lo, st)?;
-                let c = Case { optidx, lead: "\"".to_string(), word: all[wi].clone(), trail: "\"".to_string(), retype: vec![] };
+                let c = Case { optidx, lead: "\"".to_string(), word: all[wi].clone(), trail: "\"".to_string(), retype: vec![], burst: vec![] };
                 checked(&c, lo, st)?;
             }
             st.label("duplicated-dictionary-entries-typed");
             Ok(())
         },
     );
+    // erase-and-continue around the wrapper: quote(s) + consonant + every sign (a traditionally joined sign is two code
+    // points for one key) + 1..4 backspaces + one more key, under all 16 option sets
+    let signs: Vec<String> = ["\u{09BE}", "\u{09BF}", "\u{09C0}", "\u{09C1}", "\u{09C2}", "\u{09C3}", "\u{09C7}", "\u{09C8}", "\u{09CB}", "\u{09CC}", "\u{0981}", "\u{09CD}\u{0995}"].iter().map(|s| s.to_string()).collect();
+    let mut eitems: Vec<Case> = vec![];
+    for lead in ["", "\"", "'", "(", "\"'"] {
+        for c1 in ["\u{0995}", "\u{09B0}", "\u{09B8}"] {
+            for sg in &signs {
+                for n in 1u8..=4 {
+                    for next in ["\u{0995}", "\"", "\u{09BE}"] {
+                        for optidx in 0..N_OPT {
+                            let pos = (lead.chars().count() + sg.chars().count()) as u8;
+                            eitems.push(Case { optidx, lead: lead.to_string(), word: format!("{c1}{sg}{next}"), trail: String::new(), retype: vec![], burst: vec![(pos, n)] });
+                        }
+                    }
+                }
+            }
+        }
+    }
+    run.exhaustive("erase-and-continue-behind-a-wrapper", &eitems, |_| mk_local(), |c, st, lo| checked(c, lo, st));
+    run.require_label("with-backspace-burst", 1000);
     run.require_label("word-needs-a-number-pad-key", 1);
     run.require_label("emoji-source-present", 10);
     run.require_label("with-backspace", 20);
@@ -260,6 +304,6 @@ pub fn run(run: &Run) {
 
 pub fn replay(_run: &Run, case: &Value) -> Result<(), Failure> {
     let s = |k: &str| case[k].as_str().unwrap_or_default().to_string();
-    let c = Case { optidx: case["optidx"].as_u64().unwrap_or(0) as usize, lead: s("lead"), word: s("word"), trail: s("trail"), retype: serde_json::from_value(case["retype"].clone()).unwrap_or_default() };
+    let c = Case { optidx: case["optidx"].as_u64().unwrap_or(0) as usize, lead: s("lead"), word: s("word"), trail: s("trail"), retype: serde_json::from_value(case["retype"].clone()).unwrap_or_default(), burst: serde_json::from_value(case["burst"].clone()).unwrap_or_default() };
     check(&c, &mut mk_local(), &mut Stats::new())
 }
